@@ -19,7 +19,7 @@ rule("C10.b", "on every path from the entry of a set-up / report method to a rea
               "re-establishes it for another asset", floor=12)
 rule("C10.j", "no result of a method is memoised (lru_cache / cache / cached_property) unless everything it reads is in the key: a method "
               "that reads attributes of its object - or falls back to them when an argument is None - returns what was true for the "
-              "object's state at the first call", floor=1)
+              "object's state at the first call", floor=1, props=["C10", "C06", "C12"])
 rule("C09.h", "a loop over the assets of a portfolio reads nothing from the shared grid cache that a previous pass of the loop (the set-up of "
               "the asset before) may have left there: otherwise the result depends on the order of the assets", floor=1)
 rule("C16.h", "a wrapper (scaled / structured / linked asset) reads the shared grid cache only after re-establishing it for itself, "
@@ -40,7 +40,10 @@ rule("C10.c", "discount factors are created - unconditionally, with the asset's 
      props=["C10", "C02"])
 rule("C10.g", "the primitives that establish the shared grid cache for an asset (Timegrid.set_wacc, Timegrid.set_restricted_grid) "
               "write it on every path: no shortcut leaves the previous asset's discount factors / sub-grid in place", floor=2,
-     props=["C10", "C09", "C08"])
+     props=["C10", "C09", "C08", "C20", "C02", "C04", "C15", "C13"])
+rule("C10.o", "Asset.set_timegrid (re-)establishes the shared grid for its asset in every call: the calls of set_wacc and set_restricted_grid are "
+              "unconditional and no return precedes them - a shortcut ('already set to this grid', 'window unchanged') keeps a sub-grid whose "
+              "discount factors were copied for whichever asset built it", floor=2, props=["C10", "C15", "C09", "C20", "C02", "C04", "C17"])
 
 ENTRY_METHODS = ("setup_optim_problem", "dcf", "fill_level")
 ESTABLISH_PRIMITIVE = "set_restricted_grid"     # Timegrid method that creates .restricted
@@ -199,7 +202,7 @@ def must_assign(fn) -> frozenset:
     return out if out is not None else frozenset()
 
 
-@analysis("gridcache", ["C10.b", "C10.c", "C16.h", "C10.g", "C17.i", "C09.h", "C10.j", "C05.r", "C09.l"])
+@analysis("gridcache", ["C10.b", "C10.c", "C16.h", "C10.g", "C17.i", "C09.h", "C10.j", "C05.r", "C09.l", "C10.o"])
 def run(ctx):
     p = ctx.p
     an = CacheAnalysis(ctx)
@@ -299,6 +302,29 @@ def run(ctx):
     asset = p.cls("Asset")
     st = asset.methods.get("set_timegrid")
     ctx.require(st is not None, "Asset.set_timegrid vanished")
+    parents_ = {}
+    for a_ in ast.walk(st.node):
+        for c_ in ast.iter_child_nodes(a_):
+            parents_[c_] = a_
+    for prim in ("set_wacc", ESTABLISH_PRIMITIVE):
+        cs = [c for c in p.calls_in(st) if au.method_name(c) == prim]
+        if not cs:
+            ctx.ob("C10.o", st, "%s is called unconditionally" % prim, None, "no call of %s found in Asset.set_timegrid" % prim)
+            continue
+        c = cs[0]
+        cond = []
+        a_ = c
+        while a_ in parents_ and parents_[a_] is not st.node:
+            a_ = parents_[a_]
+            if isinstance(a_, (ast.If, ast.For, ast.While, ast.Try, ast.IfExp)):
+                cond.append(a_)
+        early = [r for r in au.walk_stmts(st.body) if isinstance(r, ast.Return) and r.lineno < c.lineno]
+        ctx.ob("C10.o", st, "%s is called unconditionally" % prim, not cond and not early,
+               "Asset.set_timegrid %s before / around its call of %s: an asset taking the shortcut works on the sub-grid and discount factors "
+               "another asset (same window, other wacc) left on the shared grid - the second set-up of a portfolio (new prices, fixed window) "
+               "discounts the first asset with the last asset's rate (value 40332.86 instead of 58788.74)" % (
+                   ("returns at %s" % p.where(early[0])) if early else (("branches at %s" % p.where(cond[0])) if cond else ""), prim),
+               node=(early[0] if early else (cond[0] if cond else c)))
     calls = [c for c in p.calls_in(st)]
     sub = [c for c in calls if au.method_name(c) == ESTABLISH_PRIMITIVE]
     if not sub:
